@@ -29,9 +29,10 @@ def U(s):
 
 
 class Tbl:
-    def __init__(self, cols=None, kind="TABLE"):
+    def __init__(self, cols=None, kind="TABLE", owner=None):
         self.cols = list(cols or [])  # [(name, type)]
         self.kind = kind
+        self.owner = owner  # id of the engine connection that created it (None: pre-existing)
 
     def key(self):
         return (self.kind, tuple(self.cols))
@@ -117,6 +118,8 @@ class DuckStub:
         self.sources = []
         self.last_target = None
         self.last_described = None
+        self.temp = {}  # this connection's temporary tables (K2: temp tables are per connection)
+        self.read_objs = []  # every catalog object this connection's statements read or wrote (name, object)
         self._names = ["?"]
         self._rows = []
         self._table = None
@@ -242,8 +245,8 @@ class DuckStub:
         else:
             c, s = self.setting
             # unqualified names are also looked up in the connection's temp schema (DuckDB search path)
-            if not for_create and name in eng.dbs.get("TEMP", {}).get("schemas", {}).get("MAIN", {}):
-                return "TEMP", "MAIN", name
+            if not for_create and name in self.temp:
+                return "TEMP", f"CONN{self.id}", name
         if not eng.has_db(c):
             raise duckdb.BinderException(f'Binder Error: Catalog "{c}" does not exist!')
         if not eng.has_schema(c, s):
@@ -254,6 +257,10 @@ class DuckStub:
 
     def _lookup(self, t: exp.Table):
         c, s, n = self._resolve(t)
+        if c == "TEMP":
+            obj = self.temp[n]
+            self.read_objs.append((n, obj))
+            return c, s, n, obj
         if n.startswith("DUCKDB_"):
             return c, s, n, Tbl([], "VIEW")
         if s == "INFORMATION_SCHEMA":
@@ -266,6 +273,7 @@ class DuckStub:
         objs = self.engine.dbs[c]["schemas"].get(s, {})
         if n not in objs:
             raise duckdb.CatalogException(f"Catalog Error: Table with name {n} does not exist!\nDid you mean ...")
+        self.read_objs.append((n, objs[n]))
         return c, s, n, objs[n]
 
     def _check_sources(self, st: exp.Expression, skip=None) -> list:
@@ -427,9 +435,10 @@ class DuckStub:
             props = st.args.get("properties")
             temp = bool(props and props.find(exp.TemporaryProperty))
             if temp:
-                c, s = "TEMP", "MAIN"
-                eng.dbs.setdefault("TEMP", {"file": ":memory:", "schemas": {"MAIN": {}}})
-            objs = eng.dbs[c]["schemas"].setdefault(s, {}) if s == "INFORMATION_SCHEMA" else eng.dbs[c]["schemas"][s]
+                c, s = "TEMP", f"CONN{self.id}"
+                objs = self.temp
+            else:
+                objs = eng.dbs[c]["schemas"].setdefault(s, {}) if s == "INFORMATION_SCHEMA" else eng.dbs[c]["schemas"][s]
             if n in objs:
                 if exists_ok:
                     self._set_result(["Count"], [])
@@ -442,7 +451,7 @@ class DuckStub:
                 for cd in st.this.expressions:
                     if isinstance(cd, exp.ColumnDef):
                         cols.append((U(cd.name), cd.args["kind"].sql(dialect="duckdb") if cd.args.get("kind") else "?"))
-            objs[n] = Tbl(cols, kind)
+            objs[n] = Tbl(cols, kind, owner=self.id)
             self.last_target = (c, s, n)
             eng.writes.append((self.id, "CREATE " + kind, f"{c}.{s}.{n}", self.in_tx))
         else:
@@ -485,6 +494,10 @@ class DuckStub:
                     self._set_result(["Success"], [])
                     return
                 raise
+            if c == "TEMP":
+                del self.temp[n]
+                self._set_result(["Success"], [])
+                return
             del eng.dbs[c]["schemas"][s][n]
             self.last_target = (c, s, n)
             eng.writes.append((self.id, "DROP " + kind, f"{c}.{s}.{n}", self.in_tx))
